@@ -10,7 +10,7 @@ CHECKS = {
    note="Trusts the 40-line calendar oracle (self-checked on fixed dates), rustc, and that DateTime is reached through TryFrom<u32>/as_int/accessors."),
  "C20": dict(engine="base_harness", category="exploration", design="DESIGN.md §2 C20",
    technique="proptest with constructed near-face points against an f64 geometric oracle; all table triggers probed through verify_trigger",
-   text="Generated boxes/circles with player points constructed in the box frame (faces, edges, corners, oblique yaw) and every trigger of the three expansions' tables (ids and shapes read from the published triggers.rs data files, not asked from the lookup: every listed id must resolve to its listed shape, unlisted ids must not) are judged against an f64 oracle of the documented definition; points within a stated float tolerance of a face are counted, not judged. Sampling, not proof: a defect confined to a region the placement classes do not reach could be missed.",
+   text="Generated boxes/circles with player points constructed in the box frame (faces, edges, corners, oblique yaw) and every trigger of the three expansions' tables (ids and shapes read from the published triggers.rs data files, not asked from the lookup: every listed id must resolve to its listed shape, unlisted ids must not) are judged against an f64 oracle of the documented definition; points within a stated float tolerance of a face are counted, not judged, except points that differ from a circle's centre in one coordinate by exactly the radius (decidable without tolerance: not inside), which are generated and swept for every table circle. Sampling, not proof: a defect confined to a region the placement classes do not reach could be missed.",
    note="Trusts the f64 oracle, the boundary tolerance 1e-4*scale, proptest's generators and shrinking."),
 }
 
@@ -47,7 +47,7 @@ CHECKS.update({
    note=CODEC_NOTE + " Deterministic: no runtime, no timers. Real multi-threaded executors are out of scope of the property."),
  "C14": dict(engine="codec_harness", category="exploration", design="DESIGN.md §2 C14",
    technique="PBT with round-trip (lift/lower) and differential (protocol-parameterised API vs the version's own codec) oracles over model-generated encodings and their corruptions",
-   text="For each of the 15 collective families and each protocol version the sources define, canonical encodings and ~60 corruptions each are decoded by the version's own codec and by expect_*_message_protocol; lifting then lowering must be the identity, the protocol API must give the lifted value and the version's own bytes (sync, tokio, async-std, also byte-by-byte), and malformed input must fail the same way on both paths.",
+   text="For each of the 15 collective families and each protocol version the sources define, canonical encodings and ~60 corruptions each are decoded by the version's own codec and by expect_*_message_protocol; lifting then lowering must be the identity, the protocol API must give the lifted value and the version's own bytes (sync, tokio, async-std, also byte-by-byte), and malformed input must fail the same way on both paths. Corrupted inputs that the version's own codec accepts (undeclared flag bits) lie outside the canonical domain the property quantifies over: whether lift/lower keeps them is counted in the evidence, not judged.",
    note=CODEC_NOTE + " The version's own codec is the reference here (it is judged by C01)."),
 })
 
@@ -56,14 +56,14 @@ CHECKS.update({
  "C11": dict(engine="typed_harness", category="exploration", design="DESIGN.md §2 C11",
    technique="exhaustive sweep of every declared enumerator plus boundary/alias/random undeclared values (proptest) through every conversion of every generated enum, against the wowm model",
    text="For every generated enum type (world, base and login crates; found by scanning the generated sources) every declared enumerator is converted from its integer and its name in both directions and must agree with the wowm declaration; undeclared values (neighbours, width aliases, extremes, proptest draws) must be rejected by every TryFrom width, and as_int / Display / FromStr / Default must be mutually consistent.",
-   note=TYPED_NOTE),
+   note=TYPED_NOTE + " The enum-to-integer direction of the login crate's enums has no public API (as_int is crate-private there): a wrong value in it is visible only in message bytes and is C01's to catch."),
  "C12": dict(engine="typed_harness", category="exploration", design="DESIGN.md §2 C12",
    technique="algebraic-law PBT (proptest) over every stand-alone flag type: set/clear/get/is_empty/new/as_int/bit operators against an integer model; declared constants against the wowm model",
    text="For each generated stand-alone flag type every declared enumerator constant, predicate, setter and clearer is compared with the wowm declaration and with an integer model over all-zero, all-one, single-bit, multi-bit and proptest-drawn raw values; From/TryFrom of every width must preserve the value or fail.",
    note=TYPED_NOTE + " The 35 message-local flag structs are checked for the integer their 677 typed constructors produce, not for the full algebra."),
  "C13": dict(engine="typed_harness", category="exploration", design="DESIGN.md §2 C13",
    technique="model-based stateful PBT: exhaustive short and proptest-generated long histories of typed setter/getter/dirty operations on every update-mask kind against a sparse map model; wire image decoded by the independent wowm model; offsets from the published field table",
-   text="Every generated accessor (1221 plain, 441 indexed slots, 21 kinds x 3 expansions) is set, read back and located on the wire at the offset the published update-mask table gives; the indexed SkillInfo / VisibleItem accessors are set with values whose members are pairwise distinct and the written words must be the byte layout of the wowm struct of that name and version; accessor instances (plain, indexed slot, inventory slot) whose words overlap partially must not disturb each other's getter; histories of set / overwrite / header-dirty / serialise / re-read operations are run against a map model after each step, exhaustively to depth 4 on a reduced alphabet and by proptest beyond.",
+   text="Every generated accessor (1221 plain, 441 indexed slots, 21 kinds x 3 expansions) is set, read back and located on the wire at the offset the published update-mask table gives; the indexed SkillInfo / VisibleItem accessors are set with values whose members are pairwise distinct and the written words must be the byte layout of the wowm struct of that name and version; every inventory slot must be the GUID at words offset + 2 x slot of its table entry; accessor instances (plain, indexed slot, inventory slot) whose words overlap must not disturb each other's getter (two plain names for exactly the same words count as one field); histories of set / overwrite / header-dirty / serialise / re-read operations are run against a map model after each step, exhaustively to depth 4 on a reduced alphabet and by proptest beyond.",
    note=TYPED_NOTE + " The half-word order inside two-u16 fields is not prescribed by the table and either packing is accepted."),
 })
 
@@ -108,7 +108,7 @@ CHECKS.update({
    note=GEN_NOTE + " Only the Vanilla module with the sync flavour is compiled. No automatic shrinking of a failing definition beyond attribution: the replay file carries the tape and the text."),
  "C19": dict(engine="gencheck", category="exploration", design="DESIGN.md §2 C19",
    technique="combinatorial interaction testing of cargo features (seeded greedy strength-3 covering arrays, full powerset in the thorough tier) with cargo check, failing sets reduced feature by feature; plus a differential across feature configurations: one probe program compiled under several feature sets run on the same model-generated frames",
-   text="cargo check of wow_login_messages under all 8 feature sets, of wow_world_base (8 features) and wow_world_messages (9 features incl. the optional dependencies) under sets in which every on/off combination of any three features occurs (16-20 sets each; thorough: the powerset); then the probe built with {vanilla sync}, {tbc tokio encryption}, {wrath async-std encryption}, a seed-drawn set and with every feature reads, re-writes and (with encryption) sends through an encrypted write/read cycle about 15,000 canonical, damaged and boundary-size frames; the outputs are compared with the all-features build.",
+   text="cargo check of wow_login_messages under all 8 feature sets, of wow_world_base (8 features) and wow_world_messages (9 features incl. the optional dependencies) under sets in which every on/off combination of any three features occurs (16-20 sets each; thorough: the powerset); then the probe built with {vanilla sync}, {tbc tokio encryption}, {wrath async-std encryption}, a seed-drawn set and with every feature reads, re-writes and (with encryption) sends through an encrypted write/read cycle about 25,000 canonical, damaged and boundary-size frames (incl. count / length fields announcing 64 KiB - 8 MiB of elements and compressed payloads inflating to sizes around the allocation limits); the outputs are compared with the all-features build (values and bytes exactly, errors by variant and parse-error kind).",
    note=GEN_NOTE + " Warnings are allowed (the property speaks of errors). Interactions of four or more features are only covered in the thorough tier."),
 })
 
